@@ -1661,7 +1661,11 @@ namespace bluetoe {
                 // if the ending_handle does not point to a specific handle, the last attribute befor that is ment.
                 if ( ending_index_ != details::invalid_attribute_index && details::handle_index_mapping< Server >::handle_by_index( ending_index_ ) != ending_handle )
                 {
-                    --ending_index_;
+                    // without any attribute in front of the ending handle, nothing can be found
+                    if ( ending_index_ == 0 )
+                        starting_index_ = details::invalid_attribute_index;
+                    else
+                        --ending_index_;
                 }
             }
 
